@@ -42,6 +42,8 @@ def gen_script(W, method):
     s["exc_after_head"] = W.chance(0.08)
     s["extra_headers"] = W.choice([0, 1, 2])
     s["block_size"] = W.choice([32768, 100])
+    s["file_offset"] = W.choice([0, 0, 3, 50, 100000])
+    s["exc_before_head"] = W.chance(0.06)
     return s
 
 
@@ -93,6 +95,15 @@ def make_script(i, s, method):
     if s["exc_after_head"] and s["kind"] in ("gen", "list") and len(chunks) >= 2 and chunks[0]:
         script["raise_at"] = (("next", 1), AppExc)
         script["kind"] = "gen"
+    elif s.get("exc_before_head"):
+        script["raise_at"] = ("call", AppExc)
+    if s["kind"] in ("file", "ufile") and s.get("file_offset") and method != "HEAD":
+        off = min(s["file_offset"], total)
+        script["file_offset"] = off
+        body = body[off:]
+        if cl is not None:
+            cl = {"exact": len(body), "larger": len(body) + 11, "smaller": max(0, len(body) - 5)}[s["cl"]]
+            script["cl"] = cl
     return script, body, cl, hdrs
 
 
@@ -159,6 +170,18 @@ def run_one(tapes, tier, scenario=None):
         bodiless = q["method"] == "HEAD" or status in (204, 304)
         if r.status is None:
             v("framing", p, "unparseable response head; stream problems %r" % (probs,))
+            break
+        if r.close_announced and r.keepalive_announced:
+            v("persistence", p, "response announces both Connection: close and Keep-Alive: %r" % (r.get_all("Connection"),), disc="contradictory_connection_tokens")
+        if sp.get("raise_at") and sp["raise_at"][0] == "call":
+            # the application failed before any output: one complete 500 that announces closing, then EOF
+            if r.status != 500 or not r.complete:
+                v("failure", p, "application failed before output but the client got status %r (complete=%s)" % (r.status, r.complete), disc="no_500")
+            elif not r.close_announced:
+                v("persistence", p, "500 response does not announce Connection: close: %r" % (r.headers,), disc="500_without_close")
+            if i + 1 < len(finals):
+                v("persistence", p, "a further response follows the 500", disc="served_after_500")
+            dead = True
             break
         if r.problems:
             v("framing", p, "head/body problems %r" % (r.problems,), disc="head:" + r.problems[0])
